@@ -21,7 +21,7 @@ BUILD_LIB = os.path.join(LEAN_DIR, ".lake", "build", "lib", "lean")
 PROOFS = ["PQ/Lemmas/SrcEquivBase.lean", "PQ/Lemmas/SrcEquiv.lean", "PQ/Lemmas/SrcEquivStore.lean",
           "PQ/Lemmas/SrcEquivDQ.lean", "PQ/Lemmas/SrcEquivOps.lean", "PQ/Lemmas/SrcEquivStore2.lean",
           "PQ/Lemmas/SrcEquivPush.lean", "PQ/Lemmas/SrcEquivOps2.lean", "PQ/Lemmas/SrcEquivBulk.lean",
-          "PQ/Lemmas/SrcEquivBulkQ.lean", "PQ/Lemmas/SrcEquivIter.lean", "PQ/Lemmas/SrcEquivPanic.lean"]
+          "PQ/Lemmas/SrcEquivBulkQ.lean", "PQ/Lemmas/SrcEquivExtend.lean", "PQ/Lemmas/SrcEquivIter.lean", "PQ/Lemmas/SrcEquivPanic.lean"]
 
 ST, PQ, DQ = "src/store.rs", "src/priority_queue/mod.rs", "src/double_priority_queue/mod.rs"
 # (name, file, old text, new text, which occurrence (0-based), kind)   kind: "mutant" | "neutral"
@@ -165,6 +165,10 @@ EDITS = [
     ("pq_from_iter_uses_from", PQ, "let store = Store::from_iter(iter);", "let store = Store::from(iter.into_iter().collect::<Vec<_>>());", 0, "mutant"),
     ("pq_from_queue_no_rebuild", PQ, "        let mut this = Self { store };\n        this.heap_build();", "        let mut this = Self { store };", 0, "mutant"),
     ("dq_deserialize_no_rebuild", DQ, "                let mut pq = DoublePriorityQueue { store };\n                pq.heap_build();", "                let mut pq = DoublePriorityQueue { store };", 0, "mutant"),
+    ("pq_extend_args", PQ, "better_to_rebuild(self.len(), min)", "better_to_rebuild(min, self.len())", 0, "mutant"),
+    ("pq_extend_no_reserve", PQ, "            self.reserve(min);\n            better_to_rebuild", "            better_to_rebuild", 0, "mutant"),
+    ("dq_extend_no_rebuild", DQ, "            self.store.extend(iter);\n            self.heap_build();", "            self.store.extend(iter);", 0, "mutant"),
+    ("dq_extend_inverted", DQ, "        if rebuild {\n            self.store.extend(iter);", "        if !rebuild {\n            self.store.extend(iter);", 0, "mutant"),
     ("dq_comment_only", DQ, "fn heapify_min(&mut self, mut i: Position) {",
      "fn heapify_min(&mut self, mut i: Position) {\n        // trickle down on a min level", 0, "neutral"),
     ("comment_only", PQ, "fn heapify(&mut self, mut i: Position) {",
